@@ -2,6 +2,6 @@
 # Offline setup: warm the Go build cache for the harness (everything is rebuilt from /repo by ./check anyway).
 export GOFLAGS=-mod=mod GOPROXY=off GOSUMDB=off GOTOOLCHAIN=local CGO_ENABLED=1
 cd "$(dirname "$0")/h" || exit 1
-cp /repo/go.sum go.sum 2>/dev/null
+
 go build -tags verif -o /dev/null ./checks/... 2>&1 | tail -5
 exit 0
